@@ -47,8 +47,8 @@ CONFIGS = {
     'target': dict(cols=['a', 'b', 'c'], over=dict(target_ranking_only='True', minibatch_size=8, subsampling=1, heuristic='MI-numba-randomized')),
     'pairwise': dict(cols=['a', 'b', 'c'], over=dict(target_ranking_only='False', minibatch_size=8, subsampling=1, heuristic='MI-numba-randomized')),
     'ratio': dict(cols=['a', 'b', 'c'], over=dict(target_ranking_only='True', minibatch_size=8, subsampling=1, heuristic='MI-numba-randomized', mi_stratified_sampling_ratio=0.5)),
-    # scaled instance: the size constant of the coverage heuristic is set to 8 for this configuration, so that any size-triggered path is taken by 8-row batches
-    'coverage_scaled': dict(cols=['a', 'b', 'c'], over=dict(target_ranking_only='False', minibatch_size=8, subsampling=1, heuristic='max-value-coverage'), max_size=8),
+    # scaled instance: the size constant of the coverage heuristic is set to 4 for this configuration, so that any size-triggered path is taken by the 8-row batches
+    'coverage_scaled': dict(cols=['a', 'b', 'c'], over=dict(target_ranking_only='False', minibatch_size=8, subsampling=1, heuristic='max-value-coverage'), max_size=4),
     'noise': dict(cols=['a', 'b'], over=dict(target_ranking_only='True', minibatch_size=8, subsampling=1, heuristic='MI-numba-randomized', include_noise_baseline_features='True')),
 }
 
